@@ -23,7 +23,7 @@ SHARD = 200
 TIERS = {
     "C14": {"quick": (16000, 1), "thorough": (400000, 1)},
     "C11": {"quick": (24000, 1), "thorough": (800000, 1)},
-    "C20": {"quick": (2500, 2), "thorough": (40000, 3)},
+    "C20": {"quick": (2000, 2), "thorough": (40000, 3)},
     "C07": {"quick": (4000, 2), "thorough": (60000, 3)},
     "C06": {"quick": (4000, 2), "thorough": (80000, 3)},
     "C03": {"quick": (6000, 2), "thorough": (80000, 3)},
